@@ -1,19 +1,24 @@
 #!/bin/bash
-# tools/detect.sh <ID> [tier] — applies each deliberate property-breaking change under detections/<ID>/*.diff to /repo,
-# checks that the repository's own tests of the touched packages still pass, runs the check and expects exit 1.
-ID=$1; TIER=${2:-quick}
-cd /repo || exit 2
-if [ -n "$(git status --porcelain)" ]; then echo "repo dirty"; exit 2; fi
+# tools/detect.sh <ID> [tier] [diff ...] — for each deliberate property-breaking change (detections/<ID>/*.diff and
+# seeded/<ID>*/patch.diff, or the diffs given) makes a scratch worktree of /repo, applies the change, checks that the
+# repository's own tests of the touched packages still pass, runs the check against the worktree (expects exit 1) and
+# removes the worktree. /repo itself is never touched, so several of these can run at once.
+ID=$1; TIER=${2:-quick}; shift; shift
 export GOFLAGS=-mod=mod GOPROXY=off
-for d in /verif/detections/$ID/*.diff /verif/seeded/$ID*/patch.diff; do
+DIFFS=("$@")
+if [ ${#DIFFS[@]} -eq 0 ]; then DIFFS=(/verif/detections/$ID/*.diff /verif/seeded/$ID*/patch.diff); fi
+for d in "${DIFFS[@]}"; do
   [ -f "$d" ] || continue
-  if ! git apply "$d" 2>/tmp/apply.err; then echo "APPLY-FAILED $d: $(cat /tmp/apply.err)"; continue; fi
-  pkgs=$(git diff --name-only | xargs -n1 dirname | sort -u | sed 's|^|./|' | tr '\n' ' ')
-  if [ -z "${SKIPTESTS:-}" ]; then
-    if go test -vet=off -count=1 $pkgs >/tmp/detect_test.log 2>&1; then t=tests-pass; else t=TESTS-FAIL; fi
+  WT=$(mktemp -d /tmp/detect.XXXXXX)
+  git -C /repo worktree add -q --detach "$WT" HEAD || { echo "worktree failed"; exit 2; }
+  if ! git -C "$WT" apply "$d" 2>/tmp/apply.$$.err; then echo "== $d: APPLY-FAILED: $(cat /tmp/apply.$$.err)"; git -C /repo worktree remove --force "$WT"; continue; fi
+  pkgs=$(git -C "$WT" diff --name-only | grep '\.go$' | xargs -n1 dirname | sort -u | sed 's|^|./|' | tr '\n' ' ')
+  if [ -z "${SKIPTESTS:-}" ] && [ -n "$pkgs" ]; then
+    if (cd "$WT" && go test -vet=off -count=1 $pkgs >/tmp/detect_test.$$.log 2>&1); then t=tests-pass; else t=TESTS-FAIL; fi
   else t=tests-skipped; fi
-  out=$(cd /verif && ./check $ID --tier $TIER 2>&1); rc=$?
-  git checkout -- . ; git clean -fdq
+  out=$(cd /verif && VERIF_REPO="$WT" ./check $ID --tier $TIER 2>&1); rc=$?
+  git -C /repo worktree remove --force "$WT"; rm -rf "$WT"
   echo "== $d: $t check-exit=$rc"
   echo "$out" | grep -E "VIOLATION|class=|MACHINERY|KNOWN" | head -4
 done
+git -C /repo worktree prune
